@@ -7,11 +7,16 @@ package srv
 
 import (
 	"context"
+	"fmt"
+	"io"
 	"net"
 	"net/http"
 	"net/http/httptest"
+	"os"
+	"strconv"
 	"strings"
 	"sync"
+	"syscall"
 
 	"verif/internal/mon"
 )
@@ -37,7 +42,8 @@ type API struct {
 	status  int
 	ctype   string
 	body    []byte
-	served  int // requests answered since the last Respond
+	hangup  string // transport-level misbehaviour instead of an answer (see Hangup)
+	served  int    // requests answered since the last Respond
 	budget  int
 	clients []*http.Transport
 }
@@ -61,8 +67,12 @@ func (a *API) handle(w http.ResponseWriter, r *http.Request) {
 	over := a.served > a.budget
 	rq.Budget = over
 	a.reqs = append(a.reqs, rq)
-	status, ctype, body := a.status, a.ctype, a.body
+	status, ctype, body, hangup := a.status, a.ctype, a.body, a.hangup
 	a.mu.Unlock()
+	if hangup != "" && !over {
+		a.hangUp(w, hangup, ctype, body)
+		return
+	}
 	if over {
 		// logical request budget: a retry loop becomes a counted, deterministic failure
 		http.Error(w, "verif: request budget exhausted", http.StatusInternalServerError)
@@ -86,8 +96,39 @@ func (a *API) HostPort() string { return a.ts.Listener.Addr().String() }
 // Respond configures the answer to all following requests and resets the request budget.
 func (a *API) Respond(status int, ctype string, body []byte) {
 	a.mu.Lock()
-	a.status, a.ctype, a.body, a.served = status, ctype, body, 0
+	a.status, a.ctype, a.body, a.served, a.hangup = status, ctype, body, 0, ""
 	a.mu.Unlock()
+}
+
+// HangupModes are the server-side transport faults: the request is read and logged, then the
+// connection is closed before the status line, inside the header, or inside the body.
+var HangupModes = []string{"close-before-status", "close-in-header", "close-in-body"}
+
+// Hangup makes the server drop the connection instead of answering (until the next Respond).
+// The body and content type of the last Respond are used by "close-in-body".
+func (a *API) Hangup(mode string) {
+	a.mu.Lock()
+	a.hangup = mode
+	a.mu.Unlock()
+}
+
+func (a *API) hangUp(w http.ResponseWriter, mode, ctype string, body []byte) {
+	hj, ok := w.(http.Hijacker)
+	if !ok {
+		panic("verif: response writer cannot be hijacked")
+	}
+	conn, _, err := hj.Hijack()
+	if err != nil {
+		return
+	}
+	defer conn.Close()
+	switch mode {
+	case "close-in-header":
+		io.WriteString(conn, "HTTP/1.1 200 OK\r\nContent-Type: application/xml\r\nContent-Le")
+	case "close-in-body":
+		io.WriteString(conn, "HTTP/1.1 200 OK\r\nContent-Type: "+ctype+"\r\nContent-Length: "+strconv.Itoa(len(body)+64)+"\r\n\r\n")
+		conn.Write(body[:len(body)/2])
+	}
 }
 
 // Take returns the requests logged since the previous Take.
@@ -102,7 +143,13 @@ func (a *API) Take() []APIRequest {
 // Client returns an http.Client whose connections always end at this server, whatever host
 // the URL names; the Host header still carries the URL's host, so the server log shows which
 // host the library addressed (used for the default base URL).
-func (a *API) Client() *http.Client {
+func (a *API) Client() *http.Client { return a.ClientWith(nil, false) }
+
+// ClientWith is Client with a fault-injecting round tripper in front of the transport (nil for
+// none) and optionally without connection reuse (net/http replays an idempotent request by
+// itself when a *reused* connection dies before the first response byte; without reuse every
+// request on the wire is one the library asked for).
+func (a *API) ClientWith(ft *FaultTripper, noKeepAlive bool) *http.Client {
 	addr := a.HostPort()
 	dial := func(ctx context.Context, network, _ string) (net.Conn, error) {
 		var d net.Dialer
@@ -110,12 +157,17 @@ func (a *API) Client() *http.Client {
 	}
 	// DialTLSContext hands out the same plain connection ("already past the handshake"), so a
 	// base URL with the https scheme reaches the server as well.
-	tr := &http.Transport{DialContext: dial, DialTLSContext: dial, MaxIdleConnsPerHost: 4}
+	tr := &http.Transport{DialContext: dial, DialTLSContext: dial, MaxIdleConnsPerHost: 4, DisableKeepAlives: noKeepAlive}
 	a.mu.Lock()
 	a.clients = append(a.clients, tr)
 	a.mu.Unlock()
+	var rt http.RoundTripper = tr
+	if ft != nil {
+		ft.Next = tr
+		rt = ft
+	}
 	return &http.Client{
-		Transport: tr,
+		Transport: rt,
 		// a redirect would be a second request; never follow silently
 		CheckRedirect: func(*http.Request, []*http.Request) error { return http.ErrUseLastResponse },
 	}
@@ -163,4 +215,78 @@ func (l *APILimiter) Take() []int64 {
 	out := l.waits
 	l.waits = nil
 	return out
+}
+
+// FaultModes are the client-side transport faults a FaultTripper can inject: the named error
+// is returned instead of a response, for the first RoundTrip after Arm only ("-once") or for
+// every one ("-always").
+var FaultModes = []string{"eof-once", "eof-always", "unexpected-eof-once", "reset-once", "reset-always", "epipe-once", "refused-always", "timeout-once"}
+
+type timeoutError struct{}
+
+func (timeoutError) Error() string   { return "verif: i/o timeout" }
+func (timeoutError) Timeout() bool   { return true }
+func (timeoutError) Temporary() bool { return true }
+
+// FaultTripper is an http.RoundTripper that logs every RoundTrip (one per GET the caller of
+// the http.Client asks for) with a sequence number from the shared log and can answer with a
+// transport error instead of passing the request on.
+type FaultTripper struct {
+	Log  *mon.Log
+	Next http.RoundTripper
+
+	mu    sync.Mutex
+	mode  string
+	n     int
+	trips []int64
+}
+
+// Arm sets the fault mode ("" = pass everything through) and restarts the per-call count.
+func (f *FaultTripper) Arm(mode string) {
+	f.mu.Lock()
+	f.mode, f.n = mode, 0
+	f.mu.Unlock()
+}
+
+// Take returns the sequence numbers of the RoundTrip calls since the previous Take.
+func (f *FaultTripper) Take() []int64 {
+	f.mu.Lock()
+	defer f.mu.Unlock()
+	out := f.trips
+	f.trips = nil
+	return out
+}
+
+// RoundTrip implements http.RoundTripper.
+func (f *FaultTripper) RoundTrip(req *http.Request) (*http.Response, error) {
+	seq := f.Log.Add("roundtrip", 0, 0)
+	f.mu.Lock()
+	f.trips = append(f.trips, seq)
+	f.n++
+	n, mode := f.n, f.mode
+	f.mu.Unlock()
+	if mode != "" && (n == 1 || strings.HasSuffix(mode, "-always")) {
+		if req.Body != nil {
+			req.Body.Close()
+		}
+		var cause error
+		switch strings.TrimSuffix(strings.TrimSuffix(mode, "-once"), "-always") {
+		case "eof":
+			cause = io.EOF
+		case "unexpected-eof":
+			cause = io.ErrUnexpectedEOF
+		case "reset":
+			cause = &net.OpError{Op: "read", Net: "tcp", Err: os.NewSyscallError("read", syscall.ECONNRESET)}
+		case "epipe":
+			cause = &net.OpError{Op: "write", Net: "tcp", Err: os.NewSyscallError("write", syscall.EPIPE)}
+		case "refused":
+			cause = &net.OpError{Op: "dial", Net: "tcp", Err: os.NewSyscallError("connect", syscall.ECONNREFUSED)}
+		case "timeout":
+			cause = &net.OpError{Op: "read", Net: "tcp", Err: timeoutError{}}
+		default:
+			cause = fmt.Errorf("verif: unknown fault mode %q", mode)
+		}
+		return nil, fmt.Errorf("verif transport fault: %w", cause)
+	}
+	return f.Next.RoundTrip(req)
 }
